@@ -41,14 +41,10 @@ def load_rules(prop: str):
         raise
 
 
-def run_rules(mod, prog: Program):
-    ctx = engine.Context(prog)
-    rep = engine.Reporter(mod.PROP)
-    mod.run(ctx, rep)
-    return ctx, rep
+from sa.engine import CONTRACT_SCOPE, run_rules  # noqa: E402,F401
 
 
-PRESENCE_KEYS = ("mapper-keywords", "config-arg-as-given", "index-truthiness", "index-list-mutated", "unweighted-statistic", "blob-rows-are-lists", "reshape-for-transpose", "precision-downgrade", "n_total-forwarded", "import-converted", "clusterer-wiring", "copy-flag-rebound", "single-mode-agreement", "eigh-rows", "ess-lossy", "set-order-layout", "first-iteration-guard", "lost-fancy-store", "kernel-parameter-rebound", "rename-on-error", "column-density", "fancy-accumulate", "density-unregularised", "retained-state-copy", "caller-array-write", "handed-out-logw-modified", "temperature-rebound", "stride-assumption", "seed-transformed", "checkpoint-seed", "draw-cached", "import-time-draw", "stream-rewind", "pool-cached", "pool-read", "vectorize-read",
+PRESENCE_KEYS = ("contract:", "requested-fraction-rebound", "mapper-keywords", "config-arg-as-given", "index-truthiness", "index-list-mutated", "unweighted-statistic", "blob-rows-are-lists", "reshape-for-transpose", "precision-downgrade", "n_total-forwarded", "import-converted", "clusterer-wiring", "copy-flag-rebound", "single-mode-agreement", "eigh-rows", "ess-lossy", "set-order-layout", "first-iteration-guard", "lost-fancy-store", "kernel-parameter-rebound", "rename-on-error", "column-density", "fancy-accumulate", "density-unregularised", "retained-state-copy", "caller-array-write", "handed-out-logw-modified", "temperature-rebound", "stride-assumption", "seed-transformed", "checkpoint-seed", "draw-cached", "import-time-draw", "stream-rewind", "pool-cached", "pool-read", "vectorize-read",
                  "cached-mutation", "inplace:", "shared-history-list", "foreign-rebind", "alias-mutation", "errstate-underflow", "weights-dtype", "wrapper-stateless", "wrapper-branch",
                  "wrapper-argument", "logl-rewritten", "logl-dtype", "partial-row-copy", "multinomial-pvals-tolerance", "rank-index", "mode-attr-write", "shared-clusterer-rebound",
                  "spectral-floor", "row-gather", "fold-guard-jump", "fold-exact", "unpicklable-attr", "retry-loop", "iter-seed", "facade-partial-selection",
